@@ -589,6 +589,9 @@ class Interp:
                 return string([("const", bs.decode("utf8"))])
             except Exception:
                 return ("bytes", bs)
+        if s == "&str" and len(c["const"]) >= 2 and c["const"][0] == '"' and c["const"][-1] == '"' and "\\" not in c["const"]:
+            # a literal in a pattern is a type-level constant; the driver has no bytes for it, its printed form is exact
+            return string([("const", c["const"][1:-1])])
         if s.startswith("&[u8;") and c["const"].startswith('b"'):
             try:
                 import ast
